@@ -47,8 +47,45 @@ Theorem C14_numeric_loop_grouping :
 Proof. exact num_loop_grouping. Qed.
 Print Assumptions C14_numeric_loop_grouping.
 
-(* Termination within the fuel used by the model (|p|+1 iterations for the katakana loop, 2|p|^2+2|p|+2 for the numeric
-   loop) and absence of InvalidRange / index panics are NOT proved here: they are tested by every correspondence case
-   (a run that exhausts its fuel or reaches ErrRange / PanicIndex makes check_rewrite false). *)
-Definition C14_terminates_full : Prop :=
-  forall pls p, exists q, run_plugins pls p = Some (Ok q).
+(* ---- termination and absence of InvalidRange / index panics ------------------------------------------------------ *)
+From SudachiVerif Require Import Proofs.RewriteTermination.
+
+(* decidable obligations on the facts re-extracted from the source: the katakana loop resumes at least one node after
+   the merged one; the numeral loop restarts a run only while the offending separator still counts as a digit (the
+   repaired code), its resume offsets are non-negative, and a fresh numeral parser rejects a bare ',' and '.' *)
+Fact C14_rewrite_facts_ok : rewrite_facts_ok.
+Proof.
+  unfold rewrite_facts_ok, num_facts_ok. repeat split; try (vm_compute; reflexivity); try (vm_compute; discriminate).
+  vm_compute. repeat constructor.
+Qed.
+
+(* the katakana loop finishes within |p|+1 iterations and every concat_oov_nodes call has begin < end <= |p| *)
+Theorem C14_katakana_terminates :
+  forall ml op p, exists q, join_katakana ml op p = Some (Ok q).
+Proof. exact (fun ml op p => katakana_terminates ml op p (proj1 C14_rewrite_facts_ok)). Qed.
+Print Assumptions C14_katakana_terminates.
+
+(* the numeral loop finishes within 3(|p|+1)^2 iterations (lexicographic measure: distance of the earliest possible run
+   start from the end of the path, separators still counted as digits, nodes left in this pass) and every concat_nodes
+   call has begin < end <= |p| *)
+Theorem C14_numeric_terminates :
+  forall en npos p, exists q, join_numeric en npos p = Some (Ok q).
+Proof. exact (fun en npos p => numeric_terminates en npos p (proj2 C14_rewrite_facts_ok)). Qed.
+Print Assumptions C14_numeric_terminates.
+
+(* hence the fuelled model is total: the fuel is never exhausted ... *)
+Theorem C14_terminates : forall pls p, exists q, run_plugins pls p = Some (Ok q).
+Proof. exact (fun pls p => rewrite_total pls p C14_rewrite_facts_ok). Qed.
+Print Assumptions C14_terminates.
+
+(* ... concat is never called with begin >= end (ErrRange = SudachiError::InvalidRange) nor beyond the path ... *)
+Theorem C14_no_invalid_range :
+  forall pls p, run_plugins pls p <> None /\ run_plugins pls p <> Some ErrRange /\ run_plugins pls p <> Some PanicIndex.
+Proof. exact (fun pls p => no_invalid_range pls p C14_rewrite_facts_ok). Qed.
+Print Assumptions C14_no_invalid_range.
+
+(* ... and the grouping theorem holds without any hypothesis, i.e. for the unfuelled semantics *)
+Theorem C14_rewrite_is_grouping_total :
+  forall pls p, exists q, run_plugins pls p = Some (Ok q) /\ grouping (allowed_by pls) p q.
+Proof. exact (fun pls p => rewrite_is_grouping_total pls p C14_rewrite_facts_ok). Qed.
+Print Assumptions C14_rewrite_is_grouping_total.
